@@ -296,6 +296,16 @@ def shards(tier, seed):
                 ss = [0] if quick else seeds
                 todo += [{"seed": s_, "log": g, "route": "settings", "prior": "nothing", "algo": algo, "model": model, "cohort": 7}
                          for s_ in ss for g in (COHORT7_LOGS[:3] if quick else COHORT7_LOGS)]
+                if algo == "fit_gibbs":
+                    # 10 individuals, 9 or 10 of them plotted (more than the 8 colours of the usual qualitative palettes)
+                    todo += [{"seed": 0, "log": g, "route": "settings", "prior": "nothing", "algo": algo, "model": model, "cohort": 10}
+                             for g in (None, _log(None, None, None, 2, False, "fresh", 9), _log(None, 2, 2, 2, False, "fresh", 10))]
+                    # a relative logs folder, the working directory being another one when the run starts
+                    todo += [{"seed": 0, "log": g, "route": "settings", "prior": "nothing", "algo": algo, "model": model}
+                             for g in (_log(None, 2, None, None, False, "relative_chdir"), _log(1, 1, 2, 2, False, "relative_chdir"))]
+            # the settings read from a JSON file (AlgorithmSettings.save / algorithm_settings_path), every seed of the alphabet
+            todo += [{"seed": s_, "log": None, "route": "file", "prior": p_, "algo": algo, "model": model}
+                     for s_ in seeds for p_ in ("nothing", "rng7")]
         emit(algo, todo)
     return out
 
@@ -352,6 +362,8 @@ def is_plain(case):
 def context_feature(case, baseline_differs=False):
     """Minimal input feature of a result mismatch.  When the plain call (no logging, no prior activity) already differs
     between this interpreter and the reference interpreter, everything else in the interpreter is a consequence of that."""
+    if case.get("route") == "file" and not baseline_differs:
+        return "settings read from a JSON file"
     if baseline_differs or is_plain(case):
         return PLAIN
     prior = case.get("prior", "nothing")
